@@ -200,7 +200,7 @@ def build(rng, name, opts=None):
             "",
         ]
         feats.append("all-param-kinds")
-    if rng.random() < 0.6:
+    if chance(0.6, "none-default"):
         L += [
             "def paint(c=None):",
             f"    return (c or {Col}()).name",
